@@ -1,10 +1,13 @@
 import KoordVerif.Common.Proto
 import KoordVerif.Model.C14
 /-
-Driver for C14.  One op line per case:
-  pod <be> <hasSpec> <cfs> <ratioPct|-1> <n> (<req> <lim> <mem>)*
-Output: `pod <shares quota mem | untouched>` then one `ctr …` line per container.
-The scaling uses Lean's runtime Float (IEEE binary64, as Go): ⌈q / (pct/100)⌉.
+Driver for C14.  A case is a history on one plugin instance:
+  rule node <pct>      node meta callback, annotation "<pct/100>" (pct > 0) or absent (pct = -100)
+  rule nodebad         node meta callback with an invalid annotation
+  rule slo <0|1>       node SLO callback (1 = CFS quota enabled)
+  pod <be> <hasSpec> <n> (<req> <lim> <mem>)*     hook call under the rule in force
+Output: `upd <0|1>` per rule event; for a pod `eff <enabled> <pct>`, `pod …`, one `ctr …` per container.
+Float parts use Lean's runtime Float (IEEE binary64, as Go): |a-b| >= 0.01 and ⌈q / ratio⌉.
 -/
 namespace KoordVerif.C14
 open KoordVerif.Proto
@@ -13,26 +16,40 @@ def floatScale (pct : Int) (q : Int) : Int :=
   let r : Float := Float.ofInt pct / 100.0
   (Float.ceil (Float.ofInt q / r)).toInt64.toInt
 
+def floatChanged (old new : Int) : Bool :=
+  Float.abs (Float.ofInt old / 100.0 - Float.ofInt new / 100.0) >= 0.01
+
 def showOut (tag : String) : Option Out → String
   | none => tag ++ " untouched"
   | some o => s!"{tag} {o.shares} {o.quota} {o.mem}"
 
-def runLine (line : String) : List String :=
+def stepLine (st : Rule × List String) (line : String) : Rule × List String :=
+  let (r, out) := st
   match toks line with
+  | ["rule", "node", p] =>
+    match int? p with
+    | some pct => let (r', u) := r.step floatChanged (.nodeRatio pct); (r', out ++ [s!"upd {b2i u}"])
+    | none => (r, out ++ ["bad-op"])
+  | ["rule", "nodebad"] => let (r', u) := r.step floatChanged .nodeBad; (r', out ++ [s!"upd {b2i u}"])
+  | ["rule", "slo", e] =>
+    match int? e with
+    | some e => let (r', u) := r.step floatChanged (.slo (e ≠ 0)); (r', out ++ [s!"upd {b2i u}"])
+    | none => (r, out ++ ["bad-op"])
   | "pod" :: rest =>
     match ints? rest with
-    | some (be :: hs :: cfs :: pct :: n :: vals) =>
-      if vals.length ≠ 3 * n.toNat then ["bad-op"] else
+    | some (be :: hs :: n :: vals) =>
+      if vals.length ≠ 3 * n.toNat then (r, out ++ ["bad-op"]) else
       let cs := (chunks 3 vals).filterMap fun
         | [a, b, c] => some ({ req := a, lim := b, mem := c } : Ctr)
         | _ => none
-      let cfg : Cfg := { cfs := cfs ≠ 0, ratioGt1 := pct > 100, scale := floatScale pct }
-      showOut "pod" (podHook stdConsts cfg (be ≠ 0) (hs ≠ 0) cs)
-        :: cs.map (fun c => showOut "ctr" (ctrHook stdConsts cfg (be ≠ 0) (hs ≠ 0) c))
-    | _ => ["bad-op"]
-  | _ => ["bad-op"]
+      let (en, pct) := r.effective
+      let cfg : Cfg := { cfs := en, ratioGt1 := pct > 100, scale := floatScale pct }
+      (r, out ++ [s!"eff {b2i en} {pct}", showOut "pod" (podHook stdConsts cfg (be ≠ 0) (hs ≠ 0) cs)]
+        ++ cs.map (fun c => showOut "ctr" (ctrHook stdConsts cfg (be ≠ 0) (hs ≠ 0) c)))
+    | _ => (r, out ++ ["bad-op"])
+  | _ => (r, out ++ ["bad-op"])
 
-def runCase (lines : List String) : List String := lines.flatMap runLine
+def runCase (lines : List String) : List String := (lines.foldl stepLine (Rule.init, [])).2
 
 end KoordVerif.C14
 
